@@ -38,6 +38,7 @@ class Analysis:
         self.summaries = {}
         self.routines = 0
         self.max_height = 0
+        self.main_return_heights = set()   # stack heights seen at a `return` of the main routine
 
 
 def analyse(p, max_states=200000):
@@ -170,6 +171,8 @@ def _explore(p, entry, is_sub, sums, an, max_states):
                     if stack[-1] == B:
                         issue(pc, "return with bytes on top")
                 res.min_height = min(res.min_height, len(stack) - 1)
+                if an is not None and not is_sub:
+                    an.main_return_heights.add(len(stack))
                 continue
             if o == "retsub":
                 if not is_sub:
